@@ -418,6 +418,8 @@ var hmuts = func() []hmut {
 		"self-query": {`<?n=1&last=zz>; rel="next"`}, "no-brackets": {"/v2/_catalog?n=1"}, "bad-ipv6": {"<http://[::1>"},
 		"other-host": {"<https://other.example/v2/_catalog?n=5>"}, "long": {"<" + long + ">"}, "gt": {">"},
 		"unclosed": {"</v2/_catalog"}, "dup": {"<", "</v2/_catalog?n=1>"},
+		"gt-lt": {"><"}, "rel-first": {`rel="next">; </v2/foo/bar/tags/list?n=2&last=zz>`}, "gt-then-link": {`> </v2/_catalog?n=1>; rel="next"`},
+		"junk-then-link": {`junk </v2/foo/bar/tags/list?n=2&last=zz>; rel="next"`}, "brackets-soup": {">>><<<>"},
 	})
 	add("Content-Type", "ctype", map[string][]string{
 		"absent": nil, "empty": {""}, "json": {"application/json"}, "json-charset": {"application/json; charset=utf-8"},
